@@ -119,6 +119,10 @@ def _model_records(ctx, count, rid0):
             nt = max(2, int(st.max()) + 1 + int(rng.randint(0, 2)))
             ds = D.random_dense(rng, ns=len(st), nt=nt, nc=3, nsw=2)
             ds['st'], ds['sc'] = st, sc
+            if k % 8 == 0:
+                # no cluster file (the loader copies the templates), int32 ids: curation then happens in memory only
+                ds['sc'] = None
+                sc = np.array(st)
             shutil.rmtree(d / 'm', ignore_errors=True)
             p = D.write_dataset(d / 'm', ds, id_dtype=[np.int32, np.uint32, np.int64, np.uint16][k % 4])
             with ctx.guard('model', dict(st=as_list(st), sc=as_list(sc))):
@@ -132,7 +136,7 @@ def _model_records(ctx, count, rid0):
                             template_spikes=[[t, as_list(m.get_template_spikes(t))] for t in range(nt)],
                             template_counts=[[c, as_list(m.get_template_counts(c))] for c in cl]))
                     record(sc)
-                    if k % 2:
+                    if k % 2 or k % 8 == 0:
                         # the model keeps spike_clusters as an in-memory copy "so that we can update this array
                         # during manual clustering": a merge and a split written into it (new ids max+1, max+2);
                         # the queries follow the current assignment
